@@ -63,6 +63,7 @@ structure OReq where
   version : Bytes
   headers : List (Bytes × Bytes)    -- lower-cased name, trimmed value
   complete : Bool                   -- the blank line was seen
+  malformed : Bool := false         -- some header line has no colon
 
 def parseOReq (bs : Bytes) : Option OReq :=
   match splitLines bs with
@@ -75,7 +76,8 @@ def parseOReq (bs : Bytes) : Option OReq :=
            headers := hs.filterMap (fun l => match l.idxOf? 58 with
              | some i => some ((trimWs (l.take i)).map lower, trimWs (l.drop (i + 1)))
              | none => none),
-           complete := rest.any (·.isEmpty) }
+           complete := rest.any (·.isEmpty),
+           malformed := hs.any (fun l => (l.idxOf? 58).isNone) }
 
 def allDigits (b : Bytes) : Bool := !b.isEmpty && b.all (fun c => 48 ≤ c && c ≤ 57)
 
@@ -136,6 +138,29 @@ def respBody (resp : Bytes) : Bytes :=
   | some i => resp.drop (i + 4)
   | none => []
 
+/-- the request line certainly parses (method SP uri SP "HTTP/" 1-9 digits "." 1-9 digits): from
+    then on every failure must be answered with an HTTP error response -/
+def reqLineClearlyParses (bs : Bytes) : Bool :=
+  match splitLines bs with
+  | [] => false
+  | rl :: _ =>
+    match rl.idxOf? 32 with
+    | none => false
+    | some a =>
+      let r2 := rl.drop (a + 1)
+      match r2.idxOf? 32 with
+      | none => false
+      | some b =>
+        let v := r2.drop (b + 1)
+        if v.take 5 != strBytes "HTTP/" then false else
+        let w := v.drop 5
+        match w.idxOf? 46 with
+        | none => false
+        | some d =>
+          let ma := w.take d
+          let mi := w.drop (d + 1)
+          allDigits ma && allDigits mi && ma.length ≤ 9 && mi.length ≤ 9
+
 /-- Oracle for one server-upgrade observation. `cbRejects`: a rejecting callback is configured. -/
 def judgeUpgrade (cfg : UpCfg) (reqBytes : Bytes) (err protoObs written : String) (zeroCopy : Bool) : String :=
   let wr := hexOr written
@@ -176,11 +201,11 @@ def judgeUpgrade (cfg : UpCfg) (reqBytes : Bytes) (err protoObs written : String
       if is101 then "bad:101-written-on-failure"
       else
         -- completeness (only where the statement is unambiguous)
-        let must := r.complete && allOcc r && r.method == strBytes "GET" && vok == some true && !cbRej && !hasSel && !hasExt
+        let must := r.complete && !r.malformed && allOcc r && r.method == strBytes "GET" && vok == some true && !cbRej && !hasSel && !hasExt
         if must then s!"bad:compliant-request-refused-{err}"
         else if wr.isEmpty then
           -- allowed only when the request line itself did not parse
-          (if zeroCopy && err == "hs:ErrMalformedRequest" then "ok" else if wr.isEmpty && !zeroCopy then "bad:no-error-response" else "bad:no-error-response")
+          (if zeroCopy && err == "hs:ErrMalformedRequest" && !reqLineClearlyParses reqBytes then "ok" else "bad:no-error-response")
         else
           let code := natOr (bytesToString ((wr.drop 9).take 3))
           let cl := (respHeader wr "Content-Length").map (fun b => natOr (bytesToString b))
